@@ -1,5 +1,7 @@
 // gsextract — go/ast fact extractor: reads /repo's current sources and regenerates
-// lean/Gostatix/Generated/*.lean (lock table, decoder error table, the Lua scripts as Lean terms: lua.go).
+// lean/Gostatix/Generated/*.lean (lock table, decoder error table, the Lua scripts as Lean terms: lua.go,
+// the integer kernels: arith.go, murmur3 piece by piece: murmur.go, JSON mirror-struct table and
+// binary layout table: layout.go).
 package main
 
 import (
